@@ -18,7 +18,7 @@ With the clamp, for EVERY state — no material hypothesis, no count of men, no 
    `C05_nonterminal_all` (the statement `C05_nonterminal_statement` without `|material| < 9000` and without "≤ 16 men") (§2);
 3. `EvalBelowMate_all` (in `C03Report.lean`): static evaluations at plies `1 ≤ d < 2^31` are strictly inside
    `(-mate0, mate0)` on every set of states; hence C03 part D and C07 "exactly one `bestmove`" without `EvalBelowMate` /
-   `PotentialOK`: `C03_at_least_one_report_unconditional`, `…_any_schedule_unconditional`, `C03_report_session_unconditional`,
+   `PotentialOK`: `C03_report` (`C03_report_statement` of `C03.lean` closed), `C03_at_least_one_report_unconditional`, `…_any_schedule_unconditional`, `C03_report_session_unconditional`,
    `C03_at_least_one_report_legal_root`, `MemOK.iterate_unconditional`, `MemOK.searchS_unconditional`,
    `C07_writer_exactly_one_unconditional`, `…_any_schedule_unconditional`, `C07_session_exactly_one_unconditional` (§3);
 4. C06 / C17 without `MaterialBounded` / `TreeBounded`: the underlying lemmas (`C06.static_ok`, `C06.quiesce_sound`,
@@ -143,6 +143,11 @@ theorem C03_static_inside_root_window (s : State) (p : Color) (depth : Nat) (v :
     (h2 : depth < 2^31) (hev : evaluate s p depth = some v) : -11000 < v ∧ v < 11000 := by
   have := EvalBelowMate_all (fun _ => True) s trivial p depth v h1 h2 hev
   rwa [M0_eq] at this
+
+/-- **C03_report: the full statement D of `Wee/Props/C03.lean` (`C03_report_statement`) is a theorem.**  It was "open only in
+the evaluation bound" (`C03_report_statement_of_eval_bound`); the repair of F10 closes it. -/
+theorem C03_report : C03_report_statement :=
+  C03_report_statement_of_eval_bound (EvalBelowMate_all _)
 
 /-- **`MemOK.iterate` without the evaluation bound**: every search on a region hands back a memory satisfying the invariant -/
 theorem MemOK.iterate_unconditional {R : State → Prop} (hR : Region R) (root : State) (hroot : R root)
@@ -575,3 +580,35 @@ example : LegalPos c02Start = true ∧ DisjointBoard c02Start.pieces ∧ ¬ Pote
   refine ⟨by decide +kernel, by decide +kernel, by decide +kernel⟩
 
 end Wee
+
+namespace Wee.C06
+open Wee Wee.Search Wee.Outcome
+open Wee.C10 (DisjointBoard)
+
+/-- **`C06_complete_one_worker_all` instantiated** on `compRoot` / `compKeys` of `Wee/Props/C06Complete.lean` (all its
+hypotheses hold there: `compRoot_hyps`; the `TreeBounded` component is no longer used) -/
+example (nT nB : Nat) (hT : 0 < nT) (hB : 0 < nB) (rng0 : Rng.ChaCha8) (d : Nat) (hd : 1 ≤ d) :
+    let out := iterate compRoot rng0 (some d) { keys := compKeys, tt := TT.Access.new nT nB, history := [] }
+      (fun _ => 1) Option.none
+    out.panic = Option.none ∧
+    ∃ ev line, (bestReports out.events).getLast? = some (ev, line) ∧ Ev.posInf ≤ ev ∧
+      ∃ r ∈ legalMoves compRoot, line.head? = some r.1 ∧ Lost r.2 :=
+  C06_complete_one_worker_all compRoot 1 d compKeys nT nB rng0 64 compRoot_hyps.1 compRoot_hyps.2.1
+    compRoot_hyps.2.2.2.1 compRoot_hyps.2.2.2.2.1 hT hB compRoot_hyps.2.2.2.2.2 hd
+
+/-- **`C06_sound_fresh_all` applies to the initial position** (which `TreeBounded_of_potential` could not reach: promotion
+potential 10400 a side): for every key table without harmful collision among the positions reachable from it, every
+winning report of every search of the initial position from fresh memory is a true forced mate -/
+example (keys : KeyTable) (hcf : CollisionFree keys.keys (Reachable c02Start)) (nT nB : Nat) (hT : 0 < nT) (hB : 0 < nB)
+    (history : List UInt64) (rng0 : Rng.ChaCha8) (maxDepth : Option Nat) (workersOf : Nat → Nat) (cancelAt : Option Nat) :
+    ∀ ev ∈ (iterate c02Start rng0 maxDepth { keys := keys, tt := TT.Access.new nT nB, history := history } workersOf
+      cancelAt).events, ClaimTrue c02Start ev :=
+  (C06_sound_fresh_all c02Start (by decide +kernel) (by decide +kernel) keys hcf nT nB hT hB history rng0 maxDepth
+    workersOf cancelAt 64).1
+
+/-- the static-evaluation lemmas on an over-material position: the 15-queen successor `qS1` (White to move, heuristic sum
+12922) has a non-terminal static value, so `C06_static_ok_all` never misreads it as a mate -/
+example (d : Nat) : evaluate qS1 qS1.turn d = some 9999 ∧ Ev.isTerminal 9999 = false :=
+  ⟨(q_eval d).1, by decide⟩
+
+end Wee.C06
